@@ -71,6 +71,32 @@ def determinism(quick: bool, scratch: str) -> int:
     return bad
 
 
+def models(quick: bool) -> int:
+    """The reference models against their own definitions: Bayes-ball m-separation vs. path enumeration."""
+    import random
+
+    import world
+    from models import m_separated, m_separated_bruteforce
+
+    rng = random.Random("selftest-models")
+    n = bad = sep = 0
+    for _ in range(1500 if quick else 20000):
+        g = world.gen_graph(rng, 2, 6, acyclic=True, pb_choices=(0.1, 0.3, 0.5))
+        m = world.world_model(g)
+        nodes = sorted(m.N)
+        a, b = rng.sample(nodes, 2)
+        rest = [x for x in nodes if x not in (a, b)]
+        cond = rng.sample(rest, rng.randint(0, len(rest)))
+        r1, r2, r3 = m_separated(m, a, b, cond), m_separated_bruteforce(m, a, b, cond), m_separated(m, b, a, cond)
+        n += 1
+        sep += r1
+        if r1 != r2 or r1 != r3:
+            bad += 1
+            print(f"SELFTEST-FAIL models: m_separated {r1}/{r3} vs path enumeration {r2} on {g} {a} {b} {cond}")
+    print(f"selftest models: m-separation oracle agrees with path enumeration on {n} random queries ({sep} separated)", flush=True)
+    return bad
+
+
 def sensitivity(scratch: str, only: str | None = None) -> int:
     mdir = os.path.join(driver.VERIF, "selftest", "mutants")
     sdir = os.path.join(driver.VERIF, "seeded")
@@ -125,7 +151,8 @@ def run(quick: bool, scratch: str) -> int:
     for fn in sorted(os.listdir(driver.HERE)):
         if fn.endswith(".py"):
             py_compile.compile(os.path.join(driver.HERE, fn), cfile=os.path.join(scratch, fn + "c"), doraise=True)
-    bad = determinism(quick, scratch)
+    bad = models(quick)
+    bad += determinism(quick, scratch)
     if not quick:
         bad += sensitivity(scratch)
     print(f"selftest {'quick' if quick else 'thorough'}: {'OK' if not bad else str(bad) + ' FAILURES'} in {time.time() - t0:.0f}s")
